@@ -96,6 +96,26 @@ def case_modes(case):
     ax = [np.array([0.0, 1.3, 2.1]), np.array([-0.7, 0.4]), np.array([0.2, 1.9])][:d]
     gpts = np.array([a.ravel() for a in np.meshgrid(*ax, indexing="ij")])
     r.close("structured vector field == unstructured at the grid points", np.array(srf.structured(ax)).reshape(d, -1), np.array(srf(gpts)), rtol=1e-12, atol=1e-13, **extra)
+    # the vector at a point does not depend on how many points are requested with it (1 .. dim + 2 points,
+    # i.e. also position arrays that happen to be square)
+    for k_ in range(1, d + 3):
+        for off in (0, 3):
+            sub = np.ascontiguousarray(X[:, off : off + k_])
+            r.close("vector at a point independent of the number of points requested together", np.array(srf(sub)), U[:, off : off + k_], rtol=1e-12, atol=1e-13, npoints=k_, **extra)
+    # the same field on a meshio mesh: point data and (default) cell data per cell block
+    import meshio
+
+    mp = np.zeros((8, 3))
+    mp[:, :d] = X[:, :8].T
+    blocks = [("triangle", np.array([[0, 1, 2], [2, 3, 4], [1, 3, 5]])), ("quad", np.array([[0, 1, 3, 4], [2, 5, 6, 7]]))] if d == 2 else [("tetra", np.array([[0, 1, 2, 3], [2, 3, 4, 5], [1, 4, 6, 7]])), ("pyramid", np.array([[0, 2, 4, 6, 7]]))]
+    mesh = meshio.Mesh(mp, blocks)
+    direction = "xy" if d == 2 else "all"
+    srf.mesh(mesh, points="points", direction=direction, name="u")
+    r.close("vector field stored as meshio point data == field at the mesh points (points x components)", np.array(mesh.point_data["u"]), U[:, :8].T, rtol=1e-12, atol=1e-13, **extra)
+    srf.mesh(mesh, direction=direction, name="uc")
+    for bi, (ctype, conn) in enumerate(blocks):
+        cen = np.array([mp[c].mean(axis=0) for c in conn]).T[:d]
+        r.close("vector field stored as meshio cell data == field at the centroids of that block (cells x components)", np.array(mesh.cell_data["uc"][bi]), np.array(srf(cen)).T, rtol=1e-12, atol=1e-13, block=ctype, **extra)
     return r.done(outcome=[round(float(x), 9) for x in U.ravel()[:3]])
 
 
